@@ -230,6 +230,8 @@ pub fn docs(tier: Tier) -> Vec<String> {
                 "<li>k</li><span class=a><span class=a><span class=a>l</span>m</span>n</span>",
                 // an element directly inside <table> is foster-parented in front of the table
                 "<div class=b><p>k</p><table><span class=a>l</span><tr><td>m</td><td class=a>n</td></tr></table><p>o</p></div>",
+                // class lists separated by ASCII white space other than a single space (tab, newline, form feed; leading / trailing)
+                "<div class=\"a\tb\"><span class=\"\nb\n\">k</span><p class=\"x\u{c}a\">l<span class=\"b\t\ta\n\">m</span></p><p class=\"ab\">n</p><p class=\" a  b \">o</p></div>",
             ]
             .iter()
             .map(|s| s.to_string()),
